@@ -203,8 +203,11 @@ class FunctionVerifier:
             env[k] = ip.eval_spec_expr(expr, env)
         for r in c.requires:
             st.assume(ip.spec_bool(r, env))
+        wanted = set(c.options.get("axioms", []))
         for nm, vars_, expr in self.db.axioms:
-            pass  # axioms are instantiated on demand by spec functions (see contracts)
+            if nm in wanted and not vars_:
+                st.assume(ip.spec_bool(expr, env))       # closed assumed facts about uninterpreted spec functions
+                st.assumed_used.add(f"axiom {nm}: {expr}")
         # objects named by frame locations exist before the pre-state snapshot (lazily created map entries)
         for loc in list(c.modifies) + [l for r in c.raises for l in r.modifies]:
             try:
@@ -270,6 +273,10 @@ class FunctionVerifier:
                 ip.check("ensures:result_is", _b(ip.identical(result, ip.eval_spec_expr(c.result_expr, env, old)))
                          if not isinstance(result, (VInt, VStr, VBool)) else _b(ip.eq(result, ip.eval_spec_expr(c.result_expr, env, old))),
                          where=f"result is {c.result_expr}")
+            for name, expr in c.cuts.items():
+                t = ip.spec_bool(expr, env, old)
+                if ip.check(f"cut:{name}", t, where=expr):
+                    st.assume(t)            # a proved intermediate fact, available to the following steps
             for name, expr in c.ensures.items():
                 try:
                     t = ip.spec_bool(expr, env, old)
